@@ -17,13 +17,9 @@
    integer type (int, bool, numpy integer) -- the only thing besides equality the code looks at
    (`isinstance(value, INT_TYPES)` on the map-less fast paths). *)
 Require Import SF.Prelude SF.PySlice Gen.Gen_c02.
+Require Export SF.IndexBijSpec.
 
-Definition iota (n : nat) : list Z := map Z.of_nat (seq 0 n).
-Definition zlen {A} (l : list A) : Z := Z.of_nat (length l).
 
-(* Python class of a presented key, as far as the map-less fast paths can tell keys apart:
-   int / numpy integer; bool; None; anything else (str, float, tuple, date ...) *)
-Inductive kclass := KInt | KBool | KNone | KOther.
 
 Section Flat.
   Variable C : Type.
@@ -31,48 +27,19 @@ Section Flat.
   Variable of_Z : Z -> C.            (* the label that is the integer z *)
   Variable to_Z : C -> option Z.     (* Some z iff the label equals the integer z *)
 
-  Definition key := (C * kclass)%type.
   (* isinstance(value, INT_TYPES): bool is a subclass of int *)
-  Definition int_typed (k : key) : bool := match snd k with KInt | KBool => true | _ => false end.
 
   (* ------------------------------------------------------------------ specification *)
-  Fixpoint memb (x : C) (l : list C) : bool :=
-    match l with [] => false | y :: ys => ceqb x y || memb x ys end.
 
-  Fixpoint nodupb (l : list C) : bool :=
-    match l with [] => true | x :: xs => negb (memb x xs) && nodupb xs end.
 
   (* first position of x *)
-  Fixpoint index_of (x : C) (l : list C) : option Z :=
-    match l with
-    | [] => None
-    | y :: ys => if ceqb x y then Some 0 else option_map Z.succ (index_of x ys)
-    end.
 
-  Definition S_lookup (l : list C) (k : key) : res Z :=
-    match index_of (fst k) l with Some i => Ok i | None => Err "KeyError" end.
 
-  Definition S_contains (l : list C) (k : key) : bool := memb (fst k) l.
 
   (* what can be observed of an index (probed with a list of keys) *)
-  Record obs := mk_obs {
-    o_values : list C;          (* index.values *)
-    o_iter : list C;            (* list(index) *)
-    o_rev : list C;             (* list(reversed(index)) *)
-    o_len : Z;                  (* len(index) *)
-    o_pos : list Z;             (* index.positions *)
-    o_at : list C;              (* [index.iloc[i] for i in range(len)] *)
-    o_lookup : list (res Z);    (* index.loc_to_iloc(k) for each probe *)
-    o_contains : list bool      (* k in index for each probe *)
-  }.
 
-  Definition S_observe (l : list C) (probes : list key) : obs :=
-    mk_obs l l (rev l) (zlen l) (iota (length l)) l
-           (map (S_lookup l) probes) (map (S_contains l) probes).
 
   (* construction: accepted iff pairwise distinct *)
-  Definition S_index (l : list C) (probes : list key) : res obs :=
-    if nodupb l then Ok (S_observe l probes) else Err "ErrorInitIndex".
 
   (* ------------------------------------------------------------------ AutoMap oracle *)
   Definition amap := list (C * Z).
@@ -182,71 +149,27 @@ Section Flat.
     match M_index_init_dtype raw cast with Ok ix => Ok (M_observe ix probes) | Err e => Err e end.
 
   Definition M_auto (n : nat) (probes : list key) : obs := M_observe (M_index_auto n) probes.
-  Definition S_auto (n : nat) (probes : list key) : obs := S_observe (map of_Z (iota n)) probes.
 
   (* list-of-labels key: LocMap.loc_to_iloc index.py:254-260: [label_to_pos[k] for k in key] *)
-  Fixpoint res_list {A} (l : list (res A)) : res (list A) :=
-    match l with
-    | [] => Ok []
-    | Ok a :: t => match res_list t with Ok r => Ok (a :: r) | Err e => Err e end
-    | Err e :: _ => Err e
-    end.
 
   Definition M_loc_to_iloc_list (ix : index) (ks : list key) : res (list Z) :=
     res_list (map (M_loc_to_iloc ix) ks).
-  Definition S_lookup_list (l : list C) (ks : list key) : res (list Z) :=
-    res_list (map (S_lookup l) ks).
 
   (* slice-of-labels key on an index with a map: LocMap.map_slice_args index.py:176-195:
      start -> pos; stop -> pos + 1 (inclusive) when the step is None or positive, and when walking down
      (fix c6f9ada) pos - 1, or None when that would be negative; step passed through *)
-  Definition opt_key_pos (f : key -> res Z) (k : option key) : res (option Z) :=
-    match k with
-    | None => Ok None
-    | Some k => match f k with Ok i => Ok (Some i) | Err e => Err e end
-    end.
 
-  Definition stop_pos (step : option Z) (p : option Z) : option Z :=
-    match p with
-    | None => None
-    | Some i =>
-        let up := match step with None => true | Some s => 0 <? s end in
-        if up then Some (i + 1) else if i - 1 <? 0 then None else Some (i - 1)
-    end.
 
-  Definition loc_slice (f : key -> res Z) (start stop : option key) (step : option Z) : res slice :=
-    match opt_key_pos f start with
-    | Err e => Err e
-    | Ok a => match opt_key_pos f stop with
-              | Err e => Err e
-              | Ok b => Ok (mk_slice a (stop_pos step b) step)
-              end
-    end.
 
   Definition M_loc_to_iloc_slice (m : amap) :=
     loc_slice (fun k => match am_get m (fst k) with Some i => Ok i | None => Err "KeyError" end).
-  Definition S_lookup_slice (l : list C) := loc_slice (S_lookup l).
 
   (* ------------------------------------------------------------------ derivations (specification)
      every derivation of index.py builds its result through the constructor, so the derived index is
      M_index_init (labels the derivation computes); these are the label computations. *)
-  Definition S_select (l : list C) (ps : list Z) : option (list C) := take_positions l ps.
 
-  Fixpoint drop_at (l : list C) (ps : list Z) (i : Z) : list C :=
-    match l with
-    | [] => []
-    | x :: xs => if existsb (Z.eqb i) ps then drop_at xs ps (i + 1) else x :: drop_at xs ps (i + 1)
-    end.
-  Definition S_drop (l : list C) (ps : list Z) : list C := drop_at l ps 0.
 
   (* Index.roll(shift): label at position i moves to (i + shift) mod n *)
-  Definition S_roll (l : list C) (shift : Z) : list C :=
-    match l with
-    | [] => []
-    | _ => let n := zlen l in
-           let k := Z.to_nat ((n - shift mod n) mod n) in
-           skipn k l ++ firstn k l
-    end.
 
   (* ------------------------------------------------------------------ grow-only Index *)
   Record go := mk_go {
@@ -344,7 +267,6 @@ Section Flat.
       if M_ext_validate g [] ks then M_go_extend_seq g1 ks else (g1, Err gen_append_dup_error)
     else M_go_extend_seq g ks.
 
-  Inductive op := OpAppend (k : key) | OpExtend (ks : list key) | OpTouch.
 
   Definition M_go_step (g : go) (o : op) : go * res unit :=
     match o with
@@ -376,36 +298,13 @@ Section Flat.
            (map (M_go_lookup g) probes) (map (M_go_contains g) probes).
 
   (* ---- specification of a grow-only index: a list that accepts exactly the new labels *)
-  Definition S_go_append (l : list C) (k : key) : list C * bool :=
-    if memb (fst k) l then (l, false) else (l ++ [fst k], true).
 
   (* extend is all-or-nothing: accepted iff no value is held and no value is repeated; then every
      value is appended in order, otherwise the index is unchanged *)
-  Fixpoint S_ext_validate (l seen : list C) (ks : list key) : bool :=
-    match ks with
-    | [] => true
-    | k :: ks' => if memb (fst k) l || memb (fst k) seen then false
-                  else S_ext_validate l (fst k :: seen) ks'
-    end.
 
-  Definition S_go_extend (l : list C) (ks : list key) : list C * bool :=
-    if S_ext_validate l [] ks then (l ++ map fst ks, true) else (l, false).
 
-  Definition S_go_step (l : list C) (o : op) : list C * bool :=
-    match o with
-    | OpAppend k => S_go_append l k
-    | OpExtend ks => S_go_extend l ks
-    | OpTouch => (l, true)
-    end.
 
-  Fixpoint S_go_run (l : list C) (ops : list op) : list C * list bool :=
-    match ops with
-    | [] => (l, [])
-    | o :: ops' => let '(l1, r) := S_go_step l o in
-                   let '(l2, rs) := S_go_run l1 ops' in (l2, r :: rs)
-    end.
 
-  Definition is_ok {A} (r : res A) : bool := match r with Ok _ => true | Err _ => false end.
 
   (* the guard of the history theorem: the values of an extend must be keys on which the membership
      test of the index is plain list membership -- on a map-less (auto-integer) index a key that EQUALS
@@ -432,25 +331,25 @@ Section Flat.
 
 End Flat.
 
-Arguments mk_obs {C}. Arguments o_values {C}. Arguments o_iter {C}. Arguments o_rev {C}.
-Arguments o_len {C}. Arguments o_pos {C}. Arguments o_at {C}. Arguments o_lookup {C}.
-Arguments o_contains {C}.
+   
+   
+
 Arguments mk_index {C}. Arguments ix_labels {C}. Arguments ix_map {C}.
 Arguments mk_go {C}. Arguments g_labels {C}. Arguments g_mut {C}. Arguments g_map {C}.
 Arguments g_count {C}. Arguments g_recache {C}. Arguments g_npos {C}.
-Arguments OpAppend {C}. Arguments OpExtend {C}. Arguments OpTouch {C}.
-Arguments memb {C}. Arguments nodupb {C}. Arguments index_of {C}. Arguments S_lookup {C}.
-Arguments S_contains {C}. Arguments S_observe {C}. Arguments S_index {C}.
+  
+   
+  
 Arguments am_get {C}. Arguments am_add {C}. Arguments am_extend {C}. Arguments am_build {C}.
-Arguments int_typed {C}. Arguments positions_getitem {C}. Arguments positions_getitem_raw {C}. Arguments positions_getitem_valid {C}. Arguments M_index_init {C}. Arguments M_index_init_dtype {C}. Arguments M_index_dtype {C}. Arguments M_index_auto {C}. Arguments key_int {C}.
+ Arguments positions_getitem {C}. Arguments positions_getitem_raw {C}. Arguments positions_getitem_valid {C}. Arguments M_index_init {C}. Arguments M_index_init_dtype {C}. Arguments M_index_dtype {C}. Arguments M_index_auto {C}. Arguments key_int {C}.
 Arguments M_loc_to_iloc {C}. Arguments M_contains {C}. Arguments M_observe {C}.
-Arguments M_index {C}. Arguments M_auto {C}. Arguments S_auto {C}.
-Arguments M_loc_to_iloc_list {C}. Arguments S_lookup_list {C}. Arguments loc_slice {C}.
-Arguments M_loc_to_iloc_slice {C}. Arguments S_lookup_slice {C}.
-Arguments S_select {C}. Arguments S_drop {C}. Arguments S_roll {C}. Arguments drop_at {C}.
+Arguments M_index {C}. Arguments M_auto {C}. 
+Arguments M_loc_to_iloc_list {C}.  
+Arguments M_loc_to_iloc_slice {C}. 
+   
 Arguments M_go_init {C}. Arguments M_go_auto {C}. Arguments M_go_recache {C}. Arguments M_go_len {C}.
 Arguments M_go_contains {C}. Arguments M_go_touch_contains {C}. Arguments M_go_append {C}.
-Arguments M_go_extend {C}. Arguments M_go_extend_seq {C}. Arguments M_ext_validate {C}. Arguments S_ext_validate {C}.
+Arguments M_go_extend {C}. Arguments M_go_extend_seq {C}. Arguments M_ext_validate {C}. 
 Arguments go_key_ok {C}. Arguments go_step_dom {C}. Arguments go_dom {C}. Arguments M_go_step {C}. Arguments M_go_run {C}. Arguments M_go_lookup {C}.
-Arguments M_go_observe {C}. Arguments S_go_append {C}. Arguments S_go_extend {C}.
-Arguments S_go_step {C}. Arguments S_go_run {C}. Arguments res_list {A}.
+Arguments M_go_observe {C}.  
+  
